@@ -267,6 +267,16 @@ example : SheetOk G gsp sampleSheet ∧ InlineOk G gsp "class:a.x,b #0000FF bg:#
   refine ⟨by decide +kernel, by decide +kernel, ?_⟩
   rw [gen_defaultAttrs]; exact pvalid_dflt G
 
+example : (compile G gsp grsp sampleSheet).toOption = some sampleRules ∧
+    (getAttrs G gsp sampleRules "class:a.x,b #0000FF bg:#abc".toList G.defaultAttrs).isSome = true := by
+  decide +kernel
+/-- the model evaluated end to end on the sample: resolve, encode at 24 bit, decode -/
+example : (getAttrs G gsp sampleRules "class:a.x,b #0000FF bg:#abc".toList G.defaultAttrs).bind
+      (fun a => decodeEscape G gsp (escapeCode G gsp .d24 a)) =
+    some { color := some "0000ff".toList, bgcolor := some "aabbcc".toList, bold := some false,
+           underline := some true, strike := some false, italic := some true, blink := some false,
+           reverse := some false, hidden := some false } := by decide +kernel
+
 /-- **Finding (full statement is false on the current tree).**  `parse_color` accepts any six
     characters after '#': the style string '#zzzzzz' resolves to the colour 'zzzzzz', for which no
     colour code is emitted, so the escape sequence decodes to the empty colour.  Stated so that it
